@@ -125,4 +125,16 @@ fn go(op: &str, a: &[i64]) -> Option<String> {
   }
 }
 
-pub fn run_enum(_name: &str, _args: &[String], _w: &mut dyn Write) -> bool { false }
+pub fn run_enum(name: &str, args: &[String], w: &mut dyn Write) -> bool {
+  match name {
+    // every lunation of every year through the memoised constructor, asked a SECOND time in the same process: the first pass
+    // (discarded) fills the memo, the lines printed are warm hits decoded from the memo — they must be the cold answers
+    "c10.warm" => {
+      let mut sink: Vec<u8> = Vec::new();
+      crate::p03::run_enum("c03.months", args, &mut sink);
+      crate::p03::run_enum("c03.months", args, w);
+      true
+    }
+    _ => false,
+  }
+}
